@@ -427,6 +427,15 @@ func (e *Enc) eval(sx *Sx, env *evalEnv) tv {
 			return tv{Val{e.bytesExpand(env.heap, x.v.T, k), "B"}, nil}
 		}
 		return tv{Val{e.tokBytes(env.heap, x.v.T), "B"}, nil}
+	case "fnid", "fnrecv":
+		x := e.eval(args[0], env)
+		if h == "fnid" {
+			return tv{Val{app("fnid", x.v.T), "Int"}, nil}
+		}
+		return tv{Val{app("fnrecv", x.v.T), "Ref"}, nil}
+	case "fn-id":
+		// (fn-id "<short function name>"): the identity of that function as a function value
+		return tv{Val{ilit(globalID("func:" + strings.Trim(args[0].Atom, "\""))), "Int"}, nil}
 	case "rem":
 		e.needB = true
 		x := e.eval(args[0], env)
@@ -689,6 +698,14 @@ func (e *Enc) fieldOf(base tv, field string, env *evalEnv) tv {
 		lv = e.nameLoaded(env, e.sortOf(ft), lv)
 		if env.sideOK() {
 			e.sideFact(env, e.typeFacts(lv, ft)) // heap cells hold well-typed values
+			if ax := e.cs.FieldAssume[name+"."+field]; ax != nil && !e.inFieldAssume {
+				// assumed fact about every value of this field (listed in the evidence)
+				e.inFieldAssume = true
+				fenv := &evalEnv{names: map[string]binding{"value": {Val{lv, e.sortOf(ft)}, ft}}, heap: env.heap, old: env.heap, owner: "field-assume", pkg: env.pkg}
+				e.sideFact(env, e.evalBool(ax, fenv))
+				e.inFieldAssume = false
+				e.trustedUsed["assumed field fact "+name+"."+field+": "+ax.String()] = true
+			}
 		}
 		return tv{Val{lv, e.sortOf(ft)}, ft}
 	}
